@@ -128,6 +128,11 @@ def run(repo, chk):
                         'typechecking (catalogue of nesting positions, typechecked by interpretation)')
     if chk.__class__.__name__ == 'Check':
         chk.floor('try-block programs', try_blocks_kept(repo, chk, 'C02.T11'), 20)
+        # the return-boundary protection is armed by the `preemptive` flag of the function body: every step from the parser to the
+        # typed tree keeps it (also the implicit return appended to a body that falls through) - shared with C05.F1
+        from . import c05 as _c05
+        from ..report import Remap as _Remap5
+        _c05._preemptive(repo, _Remap5(chk, {'C05.F1': 'C02.T5'}), GenFacts(repo))
     gf = GenFacts(repo)
     # every Turing-jump decision (undo, preempt, ??) rests on branch targets re-checking the exact inverse condition
     chk.rule('C02.T8', 'the inverse-halt table is the exact logical involution and mnemonics are right (shared with C03.J3)')
